@@ -147,7 +147,7 @@ class CHECK(core.Check):
                "int bit operations (the model uses mod/div by powers of two on Int)",
                "strings are restricted to ASCII on the unbinize path (int() of non-ASCII Unicode digits is outside the model)"]
     PARTIAL = ["C40_unpack_pack_masked_partial: literal 'masked to width' needs every one-bit field to hold 0/1 "
-               "(False/True); other values are packed by truthiness as documented (known finding D40.1, region "
+               "(False/True); other values are packed by truthiness as documented (known finding D40a, region "
                "Ioflo.Bits.oneBitNonBool)",
                "not modelled: fmt text parsing, negative offset / non-bytearray buffers in packifyInto, the caller's "
                "buffer after an exception, bytearray(int) argument of unpackify, non-ASCII digits in unbinize"]
